@@ -94,6 +94,27 @@ def unit_probe(rng, acc):
     for t in probes[:3]:
         if list(st.get_assets(t)) != assets:
             raise core.Violation(PROP, 'static-universe', 'StaticUniverse returned %s for %s' % (st.get_assets(t), assets), {})
+    if rng.random() < 0.3:
+        # the configured list is re-assigned on a universe that has already been asked (asset_list is its one public
+        # attribute): it yields exactly the NEW list; the same for the weights of a fixed-signals alpha model
+        from qstrader.alpha_model.fixed_signals import FixedSignalsAlphaModel
+        st2 = StaticUniverse(list(assets))
+        st2.get_assets(probes[0])
+        new_list = list(assets[: max(1, len(assets) - 1)]) + ['EQ:NEWCOMER']
+        st2.asset_list = new_list
+        if list(st2.get_assets(probes[1])) != new_list:
+            raise core.Violation(PROP, 'static-universe/reconfigured', 'StaticUniverse.asset_list was set to %s after first use; '
+                                 'get_assets yields %s' % (new_list, st2.get_assets(probes[1])), {})
+        w1 = {a: 1.0 for a in assets}
+        fx = FixedSignalsAlphaModel(dict(w1))
+        if dict(fx(probes[0])) != w1:
+            raise core.Violation(PROP, 'fixed-signals-model', 'FixedSignalsAlphaModel(%s) returned %s' % (w1, fx(probes[0])), {})
+        w2 = {a: 0.25 for a in new_list}
+        fx.signal_weights = dict(w2)
+        if dict(fx(probes[1])) != w2:
+            raise core.Violation(PROP, 'fixed-signals-model/reconfigured', 'signal_weights was set to %s after first use; the model '
+                                 'returns %s' % (w2, fx(probes[1])), {})
+        acc.count('C19:objects_reconfigured_after_first_use')
     if rng.random() < 0.2:
         # signals built on the static universe, seeded by hand with prices (also for a reference asset that is not a
         # member): the universe keeps yielding its configured list
